@@ -1094,7 +1094,27 @@ def shrink(cfg, failure):
         return out
     FAST_SHRINK[0] = True
     try:
-        return shrinker.shrink_failure(failure, rc)
+        if v is not None:
+            return shrinker.shrink_failure(failure, rc)
+        # type-level case (sweep / raw input / compile): shrink the term, carrying a dummy value along
+        vals = dom(term, unit.env, big=False, k=1, depth=1, cap=4) or []
+        if not vals:
+            out = dict(failure)
+            out['spec'], out['type'] = unit.spec, name
+            out['_term'], out['_value'], out['_env'] = term, None, unit.env
+            return out
+        carrier = dict(failure)
+        carrier.update(case_fields(unit, name, term, vals[0]))
+
+        def rc_type(f, u, nm, t2, v2):
+            return rc(f, u, nm, t2, None)
+
+        out = shrinker.shrink_failure(carrier, rc_type)
+        out['value'] = 'None'
+        out['_value'] = None
+        u2, _, t2, _ = rebuild_case(out)
+        out.update({k: x for k, x in case_fields(u2, 'T0', t2, None).items() if k in ('blob', 'value')})
+        return out
     finally:
         FAST_SHRINK[0] = False
 
